@@ -43,7 +43,8 @@ REACH = {t: ["co_value_cross_running", "co_raise_cross_running", "plain_none_cro
              "closed_coroutine_call", "yield_injected_in_dispatch", "four_caller_threads", "wrapper_looked_up_elsewhere",
              "queued_while_not_running_not_started", "queued_while_not_running_between_run_phases",
              "fire_and_forget_executed", "handed_over_before_stop_running", "handed_over_before_stop_queued",
-             "proxy_is_sole_holder_of_object", "slow_unwind_relayed", "slow_unwind_relayed_after_1s"] for t in ("quick", "thorough")}
+             "proxy_is_sole_holder_of_object", "slow_unwind_relayed", "slow_unwind_relayed_after_1s",
+             "plain_falsy_result_objected", "owner_loop_generations"] for t in ("quick", "thorough")}
 SHARD_TIMEOUT = {"quick": 300, "thorough": 900}
 KINDS = ["co_value", "co_raise", "plain_none", "plain_value", "plain_raise", "attr"]
 
@@ -87,6 +88,10 @@ class Probe:
         self._rec(tag, "plain_raise")
         raise ProbeError(tag)
 
+    def plain_returns(self, tag, value):
+        self._rec(tag, "plain_returns")
+        return value
+
     async def co_forever(self, tag):
         self._rec(tag, "co_forever")
         await asyncio.Event().wait()
@@ -121,7 +126,7 @@ class YieldInjector:
         self.in_dispatch = 0
         self.per_thread = {}
         self.tool = None
-        self.lines = set()
+        self.tls = threading.local()
 
     def install(self):
         import bellows.thread as bt
@@ -134,16 +139,6 @@ class YieldInjector:
             mon.free_tool_id(self.tool)
             mon.use_tool_id(self.tool, "rtmon-c20")
         fname = bt.__file__
-        try:
-            src = inspect.getsource(bt.ThreadsafeProxy).splitlines()
-            first = inspect.getsourcelines(bt.ThreadsafeProxy)[1]
-            for i, ln in enumerate(src):
-                if "def func_wrapper" in ln:
-                    start = first + i
-                if "return func_wrapper" in ln:
-                    self.lines = set(range(start, first + i))
-        except Exception:  # noqa: BLE001
-            self.lines = set()
 
         def on_line(code, line):
             if code.co_filename != fname:
@@ -152,7 +147,10 @@ class YieldInjector:
                 hit = self.rnd.random() < self.p
                 if hit:
                     self.total += 1
-                    if line in self.lines:
+                    # "in the dispatch" = on a line of bellows/thread.py that runs in a caller's thread while a
+                    # proxied call is being made there (between the call and the hand-over), whatever the
+                    # functions involved are called
+                    if getattr(self.tls, "calling", False):
                         self.in_dispatch += 1
                     t_ = threading.get_ident()
                     self.per_thread[t_] = self.per_thread.get(t_, 0) + 1
@@ -203,6 +201,7 @@ def run_shard(desc) -> Acc:
         tag = newtag()
         y0 = inj.count()
         outcome = None
+        inj.tls.calling = caller == "other"
         try:
             if saved is not None and kind != "attr":
                 # the wrapper was looked up earlier, in another context (another loop / no loop)
@@ -253,6 +252,7 @@ def run_shard(desc) -> Acc:
             outcome = ("RuntimeError", str(e)[:40])
         except BaseException as e:  # noqa: BLE001
             outcome = (type(e).__name__, str(e)[:40])
+        inj.tls.calling = False
         with rlock:
             results.append((tag, kind, caller, state, outcome, min(3, inj.count() - y0)))
 
@@ -485,6 +485,136 @@ def run_shard(desc) -> Acc:
             acc.nontrivial(("co_slow_unwind", "other", "stop", e_, d))
             acc.state(("co_slow_unwind", "other", "stop", out))
 
+
+    PLAIN_VALUES = [5, 0, False, b"", "", [], 0.0, (), {}, True, b"x", "ok"]
+
+    async def plain_return_values_phase(thread, proxy, probe, owner_ident, owner_loop_id):
+        """'For plain methods the call is queued and must return nothing': a plain method that does hand
+        something back is not passed over in silence.  What counts as the proxy objecting is kept wide - the
+        owner loop's exception handler is invoked, or a record of WARNING or above is logged by bellows - and
+        what is returned is irrelevant: 0, False, b"" are as much 'something' as 5.  None draws no objection.
+        One call at a time, with a barrier on the owner loop after each, so objections are attributed exactly."""
+        owner_loop = thread.loop
+        seen = []
+        slock = threading.Lock()
+
+        def handler(loop_, ctx):
+            with slock:
+                seen.append(("loop", repr(ctx.get("exception") or ctx.get("message"))[:80]))
+
+        class Cap(logging.Handler):
+            def emit(self, record):
+                if record.levelno >= logging.WARNING:
+                    with slock:
+                        seen.append(("log", record.getMessage()[:80]))
+
+        cap = Cap()
+        old_disable = logging.root.manager.disable
+        lg = logging.getLogger("bellows")
+        old_level = lg.level
+        logging.disable(logging.NOTSET)
+        if lg.getEffectiveLevel() > logging.WARNING or lg.level == 0:
+            lg.setLevel(logging.WARNING)
+        lg.addHandler(cap)
+
+        async def install():
+            asyncio.get_running_loop().set_exception_handler(handler)
+
+        async def uninstall():
+            asyncio.get_running_loop().set_exception_handler(None)
+
+        await thread.run_coroutine_threadsafe(install())
+        try:
+            for value in [None] + PLAIN_VALUES + [None]:
+                tag = newtag()
+                with slock:
+                    n0 = len(seen)
+                acc.case()
+                case = {"phase": "running", "kind": "plain method returning " + repr(value), "caller": "other"}
+                try:
+                    got = proxy.plain_returns(tag, value)
+                except BaseException as e:  # noqa: BLE001
+                    acc.violation("C20/relay/plain-call-must-return-nothing", f"the call itself raised {e!r} in the caller", case)
+                    continue
+                await thread.run_coroutine_threadsafe(asyncio.sleep(0.005))
+                await thread.run_coroutine_threadsafe(asyncio.sleep(0))
+                with probe.lock:
+                    execs = [(i_, l_) for (t_, k_, i_, l_) in probe.log if t_ == tag]
+                with slock:
+                    objections = seen[n0:]
+                if got is not None:
+                    acc.violation("C20/relay/plain-call-must-return-nothing", f"caller received {got!r}", case)
+                elif execs != [(owner_ident, owner_loop_id)]:
+                    acc.violation("C20/exec/call-not-executed-once", f"executed {len(execs)} times / off the owner loop: {execs}", case)
+                elif value is None and objections:
+                    acc.violation("C20/plain/objection-to-a-method-returning-nothing", f"objections {objections} to a plain method that returned None", case)
+                elif value is not None and not objections:
+                    acc.violation("C20/plain/non-none-result-accepted-silently",
+                                  f"a plain method returned {value!r} through the proxy and nothing objected (no loop exception, no warning)", case)
+                else:
+                    acc.hit("plain_falsy_result_objected" if (value is not None and not value) else "plain_result_judged")
+                acc.nontrivial(("plain_returns", repr(value), bool(objections)))
+        finally:
+            await thread.run_coroutine_threadsafe(uninstall())
+            lg.removeHandler(cap)
+            lg.setLevel(old_level)
+            logging.disable(old_disable)
+
+    async def loop_generations_phase(n):
+        """Owner loops come and go (every reconnect makes a new EventLoopThread) and CPython re-uses the
+        addresses of freed objects: whatever the proxy remembers about a closed loop must not stick to the
+        next one.  n generations: start, call (coroutine + plain) across threads, stop, call the closed
+        loop once, drop every reference, collect."""
+        import gc
+
+        for g in range(n):
+            th = bt.EventLoopThread()
+            done = await th.start()
+            pr = Probe()
+            px = bt.ThreadsafeProxy(pr, th.loop)
+            ident = []
+
+            async def who():
+                ident.append(threading.get_ident())
+
+            await th.run_coroutine_threadsafe(who())
+            lid = id(th.loop)
+            t1, t2 = newtag(), newtag()
+            acc.case()
+            case = {"phase": "running", "kind": "co_value + plain_none", "caller": "other", "generation": g}
+            try:
+                r1 = px.co_value(t1)
+                r1 = ("value", await asyncio.wait_for(r1, 3.0)) if inspect.isawaitable(r1) else ("returned", r1)
+            except BaseException as e:  # noqa: BLE001
+                r1 = (type(e).__name__, str(e)[:60])
+            try:
+                r2 = ("returned", px.plain_none(t2))
+            except BaseException as e:  # noqa: BLE001
+                r2 = (type(e).__name__, str(e)[:60])
+            await th.run_coroutine_threadsafe(asyncio.sleep(0.002))
+            with pr.lock:
+                ex = {t_: (i_, l_) for (t_, k_, i_, l_) in pr.log}
+            if r1 != ("value", ("v", t1)) or r2 != ("returned", None) or ex.get(t1) != (ident[0], lid) or ex.get(t2) != (ident[0], lid):
+                acc.violation("C20/exec/call-not-executed-once",
+                              f"generation {g} of owner loops (running): co_value gave {r1}, plain_none gave {r2}, executed: {sorted(ex)} "
+                              f"(expected both once on the owner loop)", case)
+            else:
+                acc.hit("owner_loop_generations")
+            th.force_stop()
+            await done
+            t3 = newtag()
+            try:
+                r3 = px.co_value(t3)
+            except BaseException as e:  # noqa: BLE001
+                r3 = e
+            if r3 is not None:
+                acc.violation("C20/closed/call-not-dropped", f"generation {g}: coroutine call on the closed loop gave {r3!r}",
+                              {"phase": "closed", "kind": "co_value", "generation": g})
+                if inspect.iscoroutine(r3):
+                    r3.close()
+            del th, done, pr, px, r1, r2, r3, ex
+            gc.collect()
+
     async def main():
         rnd = random.Random(desc["seed"])
         for rd in range(desc["rounds"]):
@@ -574,6 +704,7 @@ def run_shard(desc) -> Acc:
             with probe.lock:
                 log_running = list(probe.log)
             judge_phase(acc, "running", results, log_running, owner_ident[0], owner_loop_id)
+            await plain_return_values_phase(thread, proxy, probe, owner_ident[0], owner_loop_id)
             n_running = len(results)
             # ---------------- stopping: force_stop races a burst
             stop_evt = threading.Event()
@@ -611,6 +742,8 @@ def run_shard(desc) -> Acc:
             results.clear()
             if desc["threads"] >= 4:
                 acc.hit("four_caller_threads")
+            del thread, complete, owner_loop, probe, proxy, saved_on_owner, saved_on_main, sole
+            await loop_generations_phase(desc.get("generations", 30))
 
     try:
         asyncio.run(main())
